@@ -547,3 +547,79 @@ class TSLAttr_get_step_ops_strided_mixed_depths:
 
     def canary(sh, a, ret):
         check("canary: every step is 1", all(den(o) == 1 for o in ret[1][1].values()))
+
+
+# =====================================================================================
+# convert-memref-to-arith: the pointer of a subview of a tsl memref
+# =====================================================================================
+from pyvc.api import mk_ssa  # noqa: E402
+from xdsl.dialects import memref as _memref  # noqa: E402
+from xdsl.pattern_rewriter import PatternRewriter  # noqa: E402
+
+import snaxc.transforms.convert_memref_to_arith as m2a  # noqa: E402
+
+SUBVIEW_SHAPES = [dict(depths=d, mask=m, bits=b) for d in ((1, 1), (2, 2), (2, 1), (1, 3)) for m in ((True, True), (True, False), (False, True)) for b in (8, 32)]
+
+
+@contract
+class LowerExtractAlignedPointerOp_contract:
+    """pointer(subview %m[o0, o1]) == pointer(%m) + element bytes * (address the layout assigns to logical index (o0, o1)),
+    for offsets that start a tile (multiples of the inner tile size) - whichever of the offsets are dynamic operands and
+    whichever are written as literals"""
+    target = "snaxc.transforms.convert_memref_to_arith.LowerExtractAlignedPointerOp.match_and_rewrite"
+    shapes = SUBVIEW_SHAPES
+    native = False
+    total = True
+    permissive = True
+    compare_ret = False
+
+    def args(sh, sym):
+        bounds = [[sym.int(f"b{d}_{k}", 1, 6) if k > 0 else 4 for k in range(dep)] for d, dep in enumerate(sh["depths"])]
+        ts = []
+        for d, dep in enumerate(sh["depths"]):
+            ts.append(TiledStride([Stride(sym.int(f"s{d}_{k}", 1), bounds[d][k]) for k in range(dep)]))
+        tsl = TiledStridedLayout(ts, offset=0)
+        m = mk_memref_for(sym, tsl, sh["bits"], False)
+        # the number of whole tiles the subview is offset by, per dimension (dynamic operands), or the literal 0
+        tiles = [sym.int(f"q{d}", 0) for d in range(2)]
+        return [tsl, m, tiles, bounds]
+
+    def run(sh, a):
+        tsl, m, tiles, bounds = a
+        inner = []
+        for d in range(2):
+            p = 1
+            for b in bounds[d][1:]:
+                p = p * b
+            inner.append(p)
+        dyn_vals = []
+        static = []
+        for d in range(2):
+            if sh["mask"][d]:
+                dyn_vals.append(mk_ssa(tiles[d] * inner[d], IndexType()))
+                static.append(DYNAMIC_INDEX)
+            else:
+                static.append(0)
+        sv = _memref.SubviewOp(m, m.type, dyn_vals, [], [], static, [1, 1], [1, 1])
+        op = _memref.ExtractAlignedPointerAsIndexOp(sv.results[0])
+        rw = PatternRewriter(op)
+        m2a.LowerExtractAlignedPointerOp().match_and_rewrite(op, rw)
+        reps = [e for e in rw.log if e[0] == "replace_op" and e[1] is op]
+        if len(reps) != 1:
+            return dict(replaced=False)
+        return dict(replaced=True, ptr=den(reps[0][2][-1]), inner=inner)
+
+    def ensures(sh, a, ret):
+        tsl, m, tiles, bounds = a
+        check("the pointer extraction of a subview of a tsl memref is lowered", ret["replaced"])
+        el = sh["bits"] // 8
+        base = den(_memref.ExtractAlignedPointerAsIndexOp(m))
+        want = base
+        for d in range(2):
+            if sh["mask"][d]:
+                # logical offset q * inner tile size  ->  outermost digit q (tile aligned): address contribution q * outer step
+                want = want + el * tiles[d] * tsl.tstrides[d].strides[0].step
+        check("subview pointer == base pointer + element bytes * layout address of the offsets", ret["ptr"] == want)
+
+    def canary(sh, a, ret):
+        check("canary: the subview pointer is the base pointer", ret["ptr"] == den(_memref.ExtractAlignedPointerAsIndexOp(a[1])) and (sh["mask"][0] or sh["mask"][1]))
